@@ -53,10 +53,10 @@ def gen_cases(seed, n_per_type, kinds, types=None, salt=''):
         ls = lib.leaves_of(lib.TREE[tkey])
         repeated = len(set(ls)) != len(ls)
         # the histories that matter live on the content models outside the proven class: weight them
-        mult = 12 if repeated else 6 if lib.CLASS_OF_TYPE[tkey] == 'wild' else 1
+        mult = 30 if repeated else 6 if lib.CLASS_OF_TYPE[tkey] == 'wild' else 1
         for i in range(n_per_type * mult):
             kind = kinds[i % len(kinds)] if i < len(kinds) else rnd.choice(kinds)
-            if mult > 1 and i >= len(kinds) and rnd.random() < (0.35 if repeated else 0.15):
+            if mult > 1 and i >= len(kinds) and rnd.random() < (0.55 if repeated else 0.15):
                 kind = 'dupfwd'
             cases.append({'tkey': tkey, 'hist': matcher.gen_history(rnd, tkey, kind), 'kind': kind})
     return cases
